@@ -648,7 +648,16 @@ func vConnectBody(t []string) string {
 func vBuildTxn(run string, t []string) []byte {
 	b := flatbuffers.NewBuilder(0)
 	num := func(s string) []byte { return []byte(s) }
-	badfrag := vKVor(t, "badfrag", "0") == "1" // the agent supplies a syntactically invalid JSON fragment
+	// badfrag=<keys>: the agent supplies syntactically invalid JSON for every fragment of these keys (ce, se, le, ee, ev, err);
+	// badfrag=1 is ce
+	badKeys := map[string]bool{}
+	if bf := vKVor(t, "badfrag", "0"); bf == "1" {
+		badKeys["ce"] = true
+	} else if bf != "0" {
+		for _, k := range strings.Split(bf, ",") {
+			badKeys[k] = true
+		}
+	}
 	vec := func(key string, start func(*flatbuffers.Builder, int) flatbuffers.UOffsetT) flatbuffers.UOffsetT {
 		s := vKVor(t, key, "")
 		if s == "" || s == "-" {
@@ -658,7 +667,7 @@ func vBuildTxn(run string, t []string) []byte {
 		offs := make([]flatbuffers.UOffsetT, len(ids))
 		for i := len(ids) - 1; i >= 0; i-- {
 			frag := ids[i]
-			if badfrag && key == "ce" {
+			if badKeys[key] {
 				frag = "{" + frag
 			}
 			offs[i] = protocol.EncodeEvent(b, num(frag))
@@ -671,6 +680,9 @@ func vBuildTxn(run string, t []string) []byte {
 	}
 	var txnEvent flatbuffers.UOffsetT
 	if ev, ok := vKV(t, "ev"); ok {
+		if badKeys["ev"] {
+			ev = "{" + ev
+		}
 		txnEvent = protocol.EncodeEvent(b, num(ev))
 	}
 	var metrics flatbuffers.UOffsetT
@@ -698,7 +710,11 @@ func vBuildTxn(run string, t []string) []byte {
 		for i := len(parts) - 1; i >= 0; i-- {
 			f := strings.Split(parts[i], ":")
 			p, _ := strconv.Atoi(f[0])
-			offs[i] = protocol.EncodeError(b, int32(p), num(f[1]))
+			data := f[1]
+			if badKeys["err"] {
+				data = "{" + data
+			}
+			offs[i] = protocol.EncodeError(b, int32(p), num(data))
 		}
 		protocol.TransactionStartErrorsVector(b, len(parts))
 		for i := len(parts) - 1; i >= 0; i-- {
